@@ -25,11 +25,32 @@ Ltac go_case1 :=
   match goal with
   | |- context [if ?c then _ else _] => destruct c eqn:?
   | |- context [match ?x with Ok _ => _ | Panic => _ end] => destruct x eqn:?
+  | |- context [bind ?r _] =>
+      lazymatch r with
+      | Ok _ => fail
+      | Panic => fail
+      | bind _ _ => fail
+      | (if _ then _ else _) => fail
+      | _ => destruct r eqn:?
+      end
+  end.
+Lemma ge_beq_nil s : beq s [] = (len s =? 0).
+Proof. destruct s; [reflexivity|]. cbn [beq]. unfold len. cbn [length]. symmetry. apply Z.eqb_neq. lia. Qed.
+
+(* an equation between two booleans: compare their truth values arithmetically *)
+Ltac go_booleq :=
+  lazymatch goal with
+  | |- ?a = ?b =>
+      lazymatch type of a with
+      | bool => destruct a eqn:?; destruct b eqn:?; try reflexivity; exfalso;
+                unfold llen, len in *; lia
+      end
   end.
 Ltac go_close :=
-  try reflexivity; try congruence; try (f_equal; lia); try (exfalso; lia);
-  try (repeat f_equal; lia); try (rewrite <- ?app_assoc; reflexivity).
-Ltac go_cases := repeat (cbn [bind]; try go_case1); go_close.
+  try reflexivity; try solve [go_booleq]; try congruence; try (f_equal; lia); try (exfalso; lia);
+  try (repeat f_equal; lia); try (rewrite <- ?app_assoc; reflexivity);
+  try (exfalso; unfold llen, len in *; lia).
+Ltac go_cases := repeat (cbn [bind]; rewrite ?ge_beq_nil; try go_case1); go_close.
 
 (* destruct the first partial operation the left-hand side is waiting for *)
 Ltac go_head r :=
@@ -64,6 +85,7 @@ Ltac go_head_cond t :=
   | if ?c then _ else _ => c
   end.
 Ltac go_ifs2 :=
+  rewrite ?ge_beq_nil;
   lazymatch goal with |- ?l = ?r =>
     let c1 := go_head_cond l in let c2 := go_head_cond r in
     destruct c1 eqn:?; destruct c2 eqn:?; try (exfalso; lia); cbn [bind]
